@@ -28,6 +28,7 @@ import (
 	hclog "github.com/hashicorp/go-hclog"
 	plugin "github.com/hashicorp/go-plugin"
 	"github.com/hashicorp/go-plugin/runner"
+	"google.golang.org/grpc"
 
 	"verif/e3/kv"
 )
@@ -65,10 +66,12 @@ type HostConf struct {
 	Conflict       string   `json:"conflict,omitempty"` // cmd+reattach | secure+reattach | mux+reattach
 	Script         string   `json:"script,omitempty"`   // plugin is this shell script
 	StartTimeoutMs int      `json:"start_timeout_ms,omitempty"`
-	ScriptLine     string   `json:"script_line,omitempty"`    // plugin is a shell script printing this line instead of vplugin
-	Group          string   `json:"group,omitempty"`          // UnixSocketConfig.Group
-	Managed        bool     `json:"managed,omitempty"`        // ClientConfig.Managed (for CleanupClients)
-	AmbientInCmd   bool     `json:"ambient_in_cmd,omitempty"` // the cell's ambient variables are put into Cmd.Env, not into the host's environment
+	StartTimeoutNs int      `json:"start_timeout_ns,omitempty"` // a start timeout shorter than the launch itself
+	GRPCBlock      bool     `json:"grpc_block,omitempty"`       // ClientConfig.GRPCDialOptions = [grpc.WithBlock()]
+	ScriptLine     string   `json:"script_line,omitempty"`      // plugin is a shell script printing this line instead of vplugin
+	Group          string   `json:"group,omitempty"`            // UnixSocketConfig.Group
+	Managed        bool     `json:"managed,omitempty"`          // ClientConfig.Managed (for CleanupClients)
+	AmbientInCmd   bool     `json:"ambient_in_cmd,omitempty"`   // the cell's ambient variables are put into Cmd.Env, not into the host's environment
 	MinPort        uint     `json:"min_port,omitempty"`
 	MaxPort        uint     `json:"max_port,omitempty"`
 	CertPEM        string   `json:"cert_pem,omitempty"` // static TLS: trust this server certificate
@@ -317,6 +320,12 @@ func RunCell(c *Cell) (res *Result) {
 		if c.Host.StartTimeoutMs > 0 {
 			cfg.StartTimeout = time.Duration(c.Host.StartTimeoutMs) * time.Millisecond
 		}
+		if c.Host.GRPCBlock {
+			cfg.GRPCDialOptions = []grpc.DialOption{grpc.WithBlock()}
+		}
+		if c.Host.StartTimeoutNs > 0 {
+			cfg.StartTimeout = time.Duration(c.Host.StartTimeoutNs)
+		}
 		for _, a := range c.Host.Allowed {
 			cfg.AllowedProtocols = append(cfg.AllowedProtocols, plugin.Protocol(a))
 		}
@@ -452,9 +461,15 @@ func RunCell(c *Cell) (res *Result) {
 				}
 			}
 			record(op, t0, err, "")
-		case "client":
-			p, err := clients[cur()].Client()
-			protos[cur()] = p
+		case "client": // "client[:@i]"
+			ci := cur()
+			if _, at, ok := strings.Cut(arg, "@"); ok {
+				if j, e := strconv.Atoi(at); e == nil && j < len(clients) {
+					ci = j
+				}
+			}
+			p, err := clients[ci].Client()
+			protos[ci] = p
 			record(op, t0, err, "")
 		case "dispense":
 			di := cur() // "dispense:[name][@i]": on client i instead of the newest one
